@@ -327,6 +327,18 @@ pub fn scenarios(prop: &str, tier: &str) -> Vec<Scenario> {
                 out.push(sc);
             }
         }
+        // the step is a public field: constructed and set up with a small step, raised 20-fold before solve
+        // (whatever a planner derives from the step - a cached number of check points - is derived from
+        // the value the field has NOW)
+        if matches!(prop, "C03" | "C05") {
+            for pk in Pk::ALL {
+                for w in [b.world_named("subset0111", vec![b.obstacles[0].clone(), b.obstacles[1].clone(), b.obstacles[2].clone()]), b.world_free()] {
+                    let mut sc = b.scenario(w.clone(), b.params(pk, if prop == "C03" { 1e6 } else { 1.6 }, 2.5, 0.0), &format!("{prop}/{kit}/{}/{}/step-raised-after-setup", w.name, pk.name()));
+                    sc.step_raise = if prop == "C03" { 2e6 } else { 20.0 };
+                    out.push(sc);
+                }
+            }
+        }
         // C03: resolution far finer than the step (edges of 100 L and more). A cap on the number
         // of validity queries per motion, or any spacing derived from the step instead of L, shows
         // only here. Reduced alphabet (start + the 4-letter sub-alphabet) because one motion check
